@@ -73,6 +73,7 @@ func flagTrueDominates(fn *ssa.Function, flag string, b *ssa.BasicBlock) bool {
 // all of whose returns have that property (the branch extracted into a helper).
 func oneHitConsumed(c *Ctx, fn *ssa.Function, region *ssa.BasicBlock, depth int) (bad string, nret int) {
 	via := map[*ssa.BasicBlock]bool{}
+	viaEdge := map[[2]*ssa.BasicBlock]bool{}
 	for _, x := range fn.Blocks {
 		if !(region == x || region.Dominates(x)) {
 			continue
@@ -91,11 +92,13 @@ func oneHitConsumed(c *Ctx, fn *ssa.Function, region *ssa.BasicBlock, depth int)
 			}
 		}
 		if ifi, ok := x.Instrs[len(x.Instrs)-1].(*ssa.If); ok {
+			// the edge on which docNum1Hit == sentinel holds (the block it leads to may
+			// have other predecessors, e.g. in `a == sentinel || a < target`)
 			if bin, ok := ifi.Cond.(*ssa.BinOp); ok && bin.Op == token.EQL && exprSig(bin.X, 0) == ".docNum1Hit" && isMaxUint64(bin.Y) {
-				via[x.Succs[0]] = true
+				viaEdge[[2]*ssa.BasicBlock{x, x.Succs[0]}] = true
 			}
 			if bin, ok := ifi.Cond.(*ssa.BinOp); ok && bin.Op == token.NEQ && exprSig(bin.X, 0) == ".docNum1Hit" && isMaxUint64(bin.Y) {
-				via[x.Succs[1]] = true
+				viaEdge[[2]*ssa.BasicBlock{x, x.Succs[1]}] = true
 			}
 		}
 	}
@@ -108,7 +111,7 @@ func oneHitConsumed(c *Ctx, fn *ssa.Function, region *ssa.BasicBlock, depth int)
 			continue
 		}
 		nret++
-		if !coveredFrom(region, via, b) {
+		if !coveredFromEdges(region, via, viaEdge, b) {
 			bad = "a return of the 1-hit branch at " + c.pos(retPos(ret, b)) + " leaves the single hit unconsumed: a later Next/Advance would return it again"
 		}
 	}
@@ -552,7 +555,15 @@ func init() {
 			it := c.MustFn("(*PostingsList).iterator")
 			key = fnName(it) + "/except-applied"
 			okEx := false
-			for _, b := range it.Blocks {
+			// in iterator() or in a helper it calls (the function that stores ActualBM)
+			var exBlocks []*ssa.BasicBlock
+			exBlocks = append(exBlocks, it.Blocks...)
+			for _, sc := range staticCallees(it) {
+				if c.inRoot(sc) && sc.Blocks != nil {
+					exBlocks = append(exBlocks, sc.Blocks...)
+				}
+			}
+			for _, b := range exBlocks {
 				for _, ins := range b.Instrs {
 					st, ok := ins.(*ssa.Store)
 					if !ok || exprSig(st.Addr, 0) != ".ActualBM" {
@@ -567,7 +578,7 @@ func init() {
 									break
 								}
 								if ifi, ok := idom.Instrs[len(idom.Instrs)-1].(*ssa.If); ok {
-									if bin, ok := ifi.Cond.(*ssa.BinOp); ok && bin.Op == token.NEQ && exprSig(bin.X, 0) == ".except" && isNilConst(bin.Y) && idom.Succs[0] == x {
+									if bin, ok := ifi.Cond.(*ssa.BinOp); ok && exprSig(bin.X, 0) == ".except" && isNilConst(bin.Y) && ((bin.Op == token.NEQ && idom.Succs[0] == x) || (bin.Op == token.EQL && idom.Succs[1] == x)) {
 										okEx = true
 									}
 								}
@@ -592,6 +603,32 @@ func isMaxUint64(v ssa.Value) bool {
 	}
 	u, ok := constant.Uint64Val(k.Value)
 	return ok && u == math.MaxUint64
+}
+
+// coveredFromEdges: every path from `from` to `to` passes through a block in
+// via or along an edge in viaEdge.
+func coveredFromEdges(from *ssa.BasicBlock, via map[*ssa.BasicBlock]bool, viaEdge map[[2]*ssa.BasicBlock]bool, to *ssa.BasicBlock) bool {
+	seen := map[*ssa.BasicBlock]bool{}
+	var dfs func(b *ssa.BasicBlock) bool
+	dfs = func(b *ssa.BasicBlock) bool {
+		if via[b] || seen[b] {
+			return false
+		}
+		seen[b] = true
+		if b == to {
+			return true
+		}
+		for _, s := range b.Succs {
+			if viaEdge[[2]*ssa.BasicBlock{b, s}] {
+				continue
+			}
+			if dfs(s) {
+				return true
+			}
+		}
+		return false
+	}
+	return !dfs(from)
 }
 
 // coveredFrom: every path from `from` to `to` passes through a block in via.
